@@ -162,6 +162,18 @@ def check_trait_by_scheme(ctx, rule, P, f, method_names):
     return n
 
 
+def built_variants(r, adt):
+    """Variants of `adt` a value is built as: aggregate expressions and constructor functions handed to a combinator
+    (`opt.map(Self::V)`)."""
+    out = set()
+    for t in subterms(r):
+        if t.op == "agg" and t.a[0][0] == "adt" and t.a[0][1] == adt:
+            out.add(t.a[0][2])
+        elif t.op == "const" and t.a[0] == "fn" and len(t.a) > 2 and t.a[2] and t.a[2][0] == "ctor" and t.a[2][1] == adt:
+            out.add(t.a[2][2])
+    return sorted(out)
+
+
 def check_variant_preserved(ctx, rule, P, f, out_adt, min_variants=3):
     """Under "input variant = V" every `out_adt` value built into the function's result has variant V (looking through
     local mapper functions), and one is built."""
@@ -174,7 +186,7 @@ def check_variant_preserved(ctx, rule, P, f, out_adt, min_variants=3):
             continue
         ev = evaluate(f, assume)
         r = strip_sites(spec_inline(P, ev, ev.ret, 2))
-        built = sorted({t.a[0][2] for t in subterms(r) if t.op == "agg" and t.a[0][0] == "adt" and t.a[0][1] == out_adt})
+        built = built_variants(r, out_adt)
         n += 1 if built == [V] else 0
         ctx.ob(rule, "%s@%s" % (f.key, V), built in ([V], []), "with %s the result is built as %s::%s (want exactly %s)" % (", ".join("%s%s=%s" % (a, b, v) for (a, b), v in sorted(assume.items())), out_adt, "/".join(built) if built else "<none: refused>", V), where=where(f))
     ctx.floor(rule, "input variants of %s that yield a result of their own variant" % f.key, n, min_variants)
@@ -182,7 +194,7 @@ def check_variant_preserved(ctx, rule, P, f, out_adt, min_variants=3):
 
 
 
-def check_reader_totality(ctx, rule, P, f, self_adt, tag_adts):
+def check_reader_totality(ctx, rule, P, f, self_adt, tag_adts, allow_default=False):
     """A byte reader of a tagged enum accepts every tag its writer can emit: for every variant V of the tag enum the
     reader, assuming the decoded tag is V, has a success path and builds exactly Self::V on it (a reader that refuses or
     re-labels one variant breaks the round trip for that variant only)."""
@@ -195,7 +207,9 @@ def check_reader_totality(ctx, rule, P, f, self_adt, tag_adts):
             continue
         ev = evaluate(f, assume)
         r = strip_sites(spec_inline(P, ev, ev.ret, 2))
-        built = sorted({t.a[0][2] for t in subterms(r) if t.op == "agg" and t.a[0][0] == "adt" and t.a[0][1] == self_adt})
+        built = built_variants(r, self_adt)
         n += 1
+        if allow_default and V not in built and any(t.op == "call" and t.a[0][0] == "Default::default" for t in subterms(r)):
+            pass
         ctx.ob(rule, "%s@%s" % (f.key, V), built == [V], "assuming the decoded tag is %s the reader builds %s::%s (want exactly %s::%s on its success path)" % (V, self_adt, "/".join(built) if built else "<nothing: this tag is refused>", self_adt, V), where=where(f))
     return n
